@@ -336,8 +336,16 @@ func main() {
 		}
 	}
 
+	if os.Getenv("VERIF_C01_ONLY") == "clos" { // development aid: only the closure-fragment stream
+		closStream(run)
+		return
+	}
+
 	// core-fragment programs: four-way comparison through the Lean driver
 	coreStream(run)
+
+	// closure-fragment programs (variables as cells, :=, function literals, loop variables): four-way comparison
+	closStream(run)
 
 	var statf *os.File
 	if p := os.Getenv("VERIF_C01_STATS"); p != "" {
